@@ -1,3 +1,4 @@
 -- family stores: C07 C08 C09 C10 C15.  Everything listed here must build: it is part of `lake build`.
 import Thanos.Driver.Stores
 import Thanos.Props.C15
+import Thanos.Props.C08
